@@ -359,6 +359,32 @@ func (fg *FnGen) rangeInstr(x *ssa.Range) {
 	it := &rangeIter{x: fg.val(x.X), T: x.X.Type()}
 	fg.rangeIters[x] = it
 	fg.vals[x] = &Val{T: x.Type(), L: []Term{fg.fresh("iter", SInt)}}
+	if _, ok := types.Unalias(x.X.Type()).Underlying().(*types.Map); ok {
+		// ghost set of the keys produced so far: every entry present when the iteration starts and not removed
+		// meanwhile is produced exactly once (Go spec); contracts name it visited(n, k), n = ordinal of the
+		// range-over-map statement in the function
+		it.comp = fg.mapRangeComp(x)
+		fg.compSort(it.comp, ArrSort(SBool))
+		fg.set(it.comp, Term{"((as const (Array Int Bool)) false)", ArrSort(SBool)})
+	}
+}
+
+// mapRangeComp: ghost component of the visited set of a range-over-map statement.
+func (fg *FnGen) mapRangeComp(x *ssa.Range) string {
+	n := 0
+	for _, b := range fg.fn.Blocks {
+		for _, ins := range b.Instrs {
+			if r, ok := ins.(*ssa.Range); ok {
+				if _, isMap := types.Unalias(r.X.Type()).Underlying().(*types.Map); isMap {
+					if r == x {
+						return fmt.Sprintf("ghost:$vis!%d", n)
+					}
+					n++
+				}
+			}
+		}
+	}
+	return "ghost:$vis!?"
 }
 
 func (fg *FnGen) nextInstr(x *ssa.Next) {
@@ -385,6 +411,31 @@ func (fg *FnGen) nextInstr(x *ssa.Next) {
 	key := fg.mapKey(kv)
 	fg.assume(Implies(ok, fg.mapHas(fg.cur, it.x, mt, key)))
 	fg.assume(Implies(ok, Gt(fg.mapLen(fg.cur, it.x, mt), IntLit(0))))
+	if it.comp != "" {
+		vis := fg.get(fg.cur, it.comp, ArrSort(SBool))
+		// a key is produced at most once
+		fg.assume(Implies(ok, Not(Select(vis, key))))
+		// when the iteration ends every entry has been produced - provided the loop does not update maps of this
+		// type (removed/added entries may be skipped)
+		mc := mapComp(mt)
+		unmodified := true
+		if li := fg.loops[x.Block().Index]; li != nil && fg.pass == 2 {
+			mods := fg.loopMods[x.Block().Index]
+			if mods[mc+"!has"] || (mods["$all"] && !fg.g.isStableComp(mc+"!has")) {
+				unmodified = false
+			}
+		} else {
+			unmodified = false
+		}
+		if unmodified {
+			has := fg.get(fg.cur, mc+"!has", ArrSort(ArrSort(SBool)))
+			fg.nfresh++
+			q := sym(fmt.Sprintf("q_vis!%d", fg.nfresh))
+			all := fmt.Sprintf("(forall ((%s Int)) (=> (select (select %s %s) %s) (select %s %s)))", q, has.S, it.x.one().S, q, vis.S, q)
+			fg.assume(Implies(Not(ok), Term{all, SBool}))
+		}
+		fg.set(it.comp, Ite(ok, Store(vis, key, TTrue), vis))
+	}
 	vv := fg.mapGet(fg.cur, it.x, mt, key)
 	r.L = append(r.L, kv.L...)
 	if _, isInvalid := tp.At(2).Type().(*types.Basic); isInvalid && tp.At(2).Type().(*types.Basic).Kind() == types.Invalid {
